@@ -503,4 +503,6 @@ class BorrowFailSuite(OwnSuite):
         return "fails=%d" % min(3, sum(1 for o in case["ops"] if o[0] == "borrow_fail"))
 
 
-SUITES = [OwnSuite(), BorrowFailSuite()]
+from props.take_users import TakeUsersSuite  # noqa: E402
+
+SUITES = [OwnSuite(), BorrowFailSuite(), TakeUsersSuite()]
